@@ -106,6 +106,39 @@ CHECKS = {
          'wn.Wordnet() and wn.remove(); TLC compares the sets and the error behaviour.',
     note='Trusted: TLC string operators, SQLite GLOB for the generated (star-only) patterns.',
     design='DESIGN.md section 4 C08'),
+ 'C09': dict(
+    engine='words',
+    category='model_checking',
+    technique='TLA+ WnSearch (exact / stored-normalised / back-off / lemmatizer candidates / pos filter) checked by TLC (MC_Search); '
+              'recorded words/senses/synsets searches judged by TLC (Judge_C09)',
+    text='Find() is the documented three-level procedure as a TLA+ operator over word records and a normalisation table; TLC '
+         'proves ExactAlwaysFound, Sound, ExactOnlyWithoutNormalizer, BackoffOnlyIfEmpty, LemmaOnly, Images on all lexicons of '
+         'the bound. Random lexicons with case/diacritic/compatibility variants are searched through the real Wordnet under all '
+         'combinations of normalizer, search_all_forms, lemmatizer (none, custom, Morphy uninitialised/initialised) and part of '
+         'speech; TLC compares result sets and rejects duplicates.',
+    note='Trusted: TLC, the harness normalisation table (unicodedata, independent of wn), the logged lemmatizer candidates.',
+    design='DESIGN.md section 4 C09'),
+ 'C17': dict(
+    engine='words',
+    category='model_checking',
+    technique='TLA+ WnMorphy (24 detachment rules on real strings) checked by TLC (MC_Morphy); recorded Morphy calls judged by TLC (Judge_C17)',
+    text='MorphyInit / MorphyUninit give the exact result map; TLC proves SoundInit, CompleteInit, UninitHasOriginal, '
+         'NoFullSuppletion, SatellitesShareRules on the bounded model; ~30k recorded calls on random lexicons whose lemmas and '
+         'irregular forms make every rule fire and collide are compared map-for-map by TLC.',
+    note='Trusted: TLC string operators. Forms carry no script.',
+    design='DESIGN.md section 4 C17'),
+ 'C18': dict(
+    engine='validate',
+    category='model_checking',
+    technique='TLA+ WnValidate (18 checks as comprehensions, relation tables as data) with MC_Validate; reports of validate() on '
+              'defect-injected lexicons judged by TLC (Judge_C18)',
+    text='Each check is a set comprehension over the lexicon in relational form; TLC checks that the reverse-relation table is an '
+         'involution and basic independence facts, then judges every report returned for a clean lexicon, each of 34 single '
+         'defects, pairs and random combinations under several select arguments: validate() must return, contain exactly the '
+         'selected codes, list exactly the model items (a stated range for W203/W404), relation contexts must name a real '
+         'offending relation, and E204/E401 must make add() fail.',
+    note='Trusted: TLC, the flattening of the loaded lexicon into relational form, relations.json (snapshot of wn.constants).',
+    design='DESIGN.md section 4 C18'),
 }
 
 REASON_TODO = 'check not built yet in this round (planned, see DESIGN.md section 8)'
@@ -143,6 +176,10 @@ def main():
              'kind_free_text': 'TLA+ operators over hypernym graphs + TLC judge of recorded results'},
             {'name': 'store', 'path': 'spec/WnStore.tla', 'serves_properties': ['C05', 'C06', 'C07', 'C08', 'C19'],
              'kind_free_text': 'TLA+ state machine of the lexicon database + TLC judge of recorded steps'},
+            {'name': 'words', 'path': 'spec/WnSearch.tla', 'serves_properties': ['C09', 'C17'],
+             'kind_free_text': 'TLA+ operators on real strings (Morphy rules, form search) + TLC judge'},
+            {'name': 'validate', 'path': 'spec/WnValidate.tla', 'serves_properties': ['C18'],
+             'kind_free_text': 'TLA+ comprehensions for the 18 validator checks + TLC judge'},
         ],
         'checks': checks,
         'not_applicable': [{'property_id': p['id'], 'reason': REASON_TODO}
